@@ -57,7 +57,7 @@ def item_of(w, p, dump, kind, x):
     return {'start': dump.ts2k.get(x.timestamp, -1), 'frames': frames}
 
 
-def run_session(rnd, w, dumps, kinds, gen_cfg, nacts=14, max_gens=4, scenarios=None):
+def run_session(rnd, w, dumps, kinds, gen_cfg, nacts=14, max_gens=4, scenarios=None, schedule=None):
     """returns (observation, human readable script)"""
     from pykdebugparser.pykdebugparser import PyKdebugParser
     p = PyKdebugParser()
@@ -70,10 +70,10 @@ def run_session(rnd, w, dumps, kinds, gen_cfg, nacts=14, max_gens=4, scenarios=N
     gens = []                 # [iterator, kind, dump index, alive]
     last = None
 
-    def do_cfg():
-        cfg = gen_cfg(rnd)
+    def do_cfg(cfg=None, inplace=None):
+        cfg = gen_cfg(rnd) if cfg is None else cfg
         old = cfg_of(w, p)
-        inplace = rnd.random() < 0.5 and isinstance(p.filter_class, list) and isinstance(p.filter_subclass, list)
+        inplace = (rnd.random() < 0.5 if inplace is None else inplace) and isinstance(p.filter_class, list) and isinstance(p.filter_subclass, list)
         if inplace:
             # the caller edits its own lists: same objects, new contents
             fc, fs = p.filter_class, p.filter_subclass
@@ -141,10 +141,10 @@ def run_session(rnd, w, dumps, kinds, gen_cfg, nacts=14, max_gens=4, scenarios=N
         acts.append({'op': 'drop', 'g': gi + 1})
         script.append('drop #%d' % (gi + 1))
 
-    def do_open(kind=None):
+    def do_open(kind=None, d=None, codes=None):
         kind = kind or rnd.choice(kinds)
-        d = rnd.randrange(len(dumps))
-        codes = rnd.choice(['A', 'B']) if kind == 'fkev' else '-' if kind in ('kev', 'logs') else 'W'
+        d = rnd.randrange(len(dumps)) if d is None else d % len(dumps)
+        codes = codes or (rnd.choice(['A', 'B']) if kind == 'fkev' else '-' if kind in ('kev', 'logs') else 'W')
         rd = reader_of(dumps[d].blob)
         kw = rnd.random() < 0.3             # arguments by keyword
         try:
@@ -193,7 +193,7 @@ def run_session(rnd, w, dumps, kinds, gen_cfg, nacts=14, max_gens=4, scenarios=N
             if not do_adv(gi):
                 break
 
-    apply_cfg(w, p, gen_cfg(rnd))
+    apply_cfg(w, p, gen_cfg(rnd) if gen_cfg else {'ftid': 0, 'fproc': {'kind': 'none'}, 'fclass': [], 'fsub': []})
     acts.append({'op': 'cfg', 'cfg': cfg_of(w, p), 'inplace': False})
 
     def failed():
@@ -204,6 +204,20 @@ def run_session(rnd, w, dumps, kinds, gen_cfg, nacts=14, max_gens=4, scenarios=N
             if failed() or not do_adv(gi):
                 break
 
+    if schedule is not None:
+        # a schedule exported by TLC from Sessions_MBT: exactly these caller actions, in this order
+        for a in schedule:
+            if failed():
+                break
+            if a['op'] == 'open':
+                do_open(a['kind'], a['d'] - 1, a['codes'])
+            elif a['op'] == 'cfg':
+                do_cfg(dict(a['cfg'], fproc=dict(a['cfg']['fproc'])), bool(a['inplace']))
+            elif a['g'] - 1 < len(gens) and gens[a['g'] - 1][3] is True:
+                do_adv(a['g'] - 1)
+        obs = {'dumps': [d_.abstract() for d_ in dumps],
+               'tables': {'A': sorted(w.code(e) for e in A), 'B': sorted(w.code(e) for e in B)}, 'acts': acts}
+        return obs, script, gens
     scenario = rnd.choice(scenarios) if scenarios else rnd.choice(['abandon', 'abandon', 'interleave', 'interleave', 'edit', 'edit', 'random', 'random', 'prepared', 'prepared', 'peek', 'peek'] +
                           (['finalise'] * 3 if 'cs' in kinds else []))
     if rnd.random() < 0.2:
@@ -434,3 +448,48 @@ def model_check(ctx):
         cfg = (MC_CFG % (c + ('ok',))).replace('INVARIANT CleanIsAtomic\nINVARIANT SelectionIsAtomic', 'INVARIANT ' + w_)
         ctx.expect_violation(run_tlc('Sessions_MC', cfg, ctx.workdir, name='sessions_witness_' + w_, timeout=900, allow_error=True),
                              'witness: ' + w_)
+    # spec -> code: schedules exported by TLC replayed on the real object
+    from . import c13 as _c13
+    replay_tlc_schedules(ctx, random.Random(ctx.seed + 4), 250 if ctx.quick else 5000, c[2], c[4],
+                         lambda r, world=None: _c13.gen_dump(r, world=world, samples=0.3 if 'cs' in c[2] else 0.0, orphans=0.1), 'mbt')
+
+
+MBT_CFG = '''SPECIFICATION MSpec
+CONSTANTS MaxGens = 3
+ MaxSteps = %d
+ Kinds = {%s}
+ Cfgs <- CfgTwo
+ DumpSet = "%s"
+ Variant = "ok"
+ PVariant = "ok"
+ SVariant = "ok"
+INVARIANT Export
+CHECK_DEADLOCK FALSE
+'''
+
+
+def replay_tlc_schedules(ctx, rnd, n, kinds_tla, dumpset, gen_dump, tag):
+    """spec -> code: schedules of caller actions exported by TLC (Sessions_MBT, simulation), each replayed on a real object
+    over two real dumps; what came out is judged by Sessions_Val"""
+    import json
+    from .tlc import simulate_behaviours
+    tuples, info = simulate_behaviours('Sessions_MBT', MBT_CFG % (11, kinds_tla, dumpset), ctx.workdir, n, name=tag + '_sim',
+                                       depth=12, seed=ctx.seed + 9)
+    ctx.tlc_runs.append(info)
+    obs, scripts = [], {}
+    for i, t in enumerate(tuples):
+        sched = json.loads(t[1])
+        w, d1 = gen_dump(rnd)
+        _, d2 = gen_dump(rnd, world=w)
+        o, script, gens = run_session(rnd, w, [d1, d2], ('kev',), None, schedule=sched)
+        o['id'] = '%s%d' % (tag, i)
+        obs.append(o)
+        scripts[o['id']] = (script, [d1, d2], w)
+    nv, rej, _ = validate_observations('Sessions_Val', obs, ctx.workdir, name=tag + 'val', consts=VAL_CONSTS, timeout=3000)
+    ctx.traces += nv
+    for oid, clause in rej:
+        script, dumps, w = scripts[oid]
+        ctx.violation('%s/tlc-schedule/%s' % (ctx.prop, clause.partition('@')[0]), 'schedule %s: %s; script: %s' % (oid, clause, ' ; '.join(script)[:1500]),
+                      {'kind': 'session', 'clause': clause, 'script': script, 'files_hex': [d.blob.hex() for d in dumps],
+                       'streams': [describe(w, d.stream) for d in dumps]})
+    ctx.extra.setdefault('sessions', {})['tlc_schedules_replayed'] = nv
